@@ -52,7 +52,7 @@ class TreeHarness:
         self.mir = mir; self.L = layouts; self.A = LogWAlg(); self.vm = VM(mir, self.A)
         self.maxdepth = maxdepth; self.mindepth = mindepth; self.start = start_site; self.dim = dim; self.faults = faults
         self.dir_oracle = dir_oracle; self.fork_accept = fork_accept; self.check_turning = check_turning; self.extra = extra_doublings
-        self.nacc = 0
+        self.nacc = 0; self.max_energy_error = z3.Real('max_energy_error')    # what options() puts into NutsOptions (LogWAlg fresh = a z3 Real of that name)
         self.fn = {k: mir.method('NutsTree', None, k) for k in ('new', 'extend', 'merge_into', 'single_step', 'info')}
         self.fn['draw'] = mir.find(r'^draw$')
         self.fn['dir_sample'] = mir.method('StandardUniform', 'Distribution', 'sample')
@@ -92,6 +92,11 @@ class TreeHarness:
         def leapfrog(vm, m, c, a):
             s, sid = H.st(m, a[2]); d = a[3]; sign = 1 if d.name == 'Forward' else -1
             site = s['site'] + sign
+            # the tree integrates with the Hamiltonian's own step size (factor 1) and the divergence limit of its options
+            fac = a[4]; fv = getattr(fac, 'v', fac)
+            if not (z3.is_expr(fv) and z3.is_true(z3.simplify(fv == 1))): m.log('events', ('bad_leapfrog_args', 'step_size_factor', str(fv)))
+            mee = getattr(a[6], 'v', a[6])
+            if H.max_energy_error is not None and not (z3.is_expr(mee) and z3.eq(mee, H.max_energy_error)): m.log('events', ('bad_leapfrog_args', 'max_energy_error', str(mee)))
             outs = []
             kinds = [0, 1, 2] if H.faults else [0]
             for kd in kinds:
